@@ -19,8 +19,10 @@ def spec_part(tier, seed):
                              unwind_fns=dict(writer_loops(1, 160), **rej_loops(len(v), 160)), mem_gb=(12 if len(v) == 1 or all(v) else 30), timeout_s=2400, sub="C13 reject writer: exactly the failed hunks",
                              must_cover=["reject scan done"] if not all(v) else [],
                              params=dict(report=["applied" if x else "failed" for x in v], removed_line_differs_from_added=distinct)))
+    # (a Kani harness for make_rej_filename on concrete paths -- harness/common_h.rs -- was measured: > 560 s per path in the binary
+    #  crate because of to_string_lossy; the directory part of the name is an Engine-B VC instead)
     return {"instances": inst,
-            "functions": ["FilePatch::write_rej_to", "write_file_patch_header_to", "TextHunk::write_to"],
+            "functions": ["FilePatch::write_rej_to", "write_file_patch_header_to", "TextHunk::write_to", "common::make_rej_filename"],
             "symbolic": "every line byte of the hunks; the applied/failed vector is enumerated (all vectors up to 3 hunks)",
             "bounds": {"hunks": "1 failed hunk, or 2-3 applied ones (quick); 2 hunks with any vector attempted in thorough (30 GB cap)", "lines_per_hunk_side": 1},
             "assumptions": ["report built with the crate's own constructors (new_with_capacity + push_hunk_report)", "fixed-size io::Write sink; memchr stand-in",
@@ -28,6 +30,6 @@ def spec_part(tier, seed):
                             "here the header text only identifies which hunk was written",
                             "removed and added line of a hunk differ, except in the one-hunk instance *_anyeq"],
             "outside": ["hunks with context or more than one line per side", "reading the reject file back through the parser (does not finish on a buffer of symbolic layout)",
-                        "the reject file name (make_rej_filename is OsString/extension handling in the binary crate)"],
+                        "the exact reject file name (the VC decides that it is derived from the file's own path with the directory kept; the extension arithmetic is std's)"],
             "explanation": "write_rej_to's output is scanned as records: exactly the failed hunks, in order, with their bytes; nothing is written when every hunk applied. "
                            "Guards over MIR: a reject file is created only for a file patch of the rejected patch whose report failed, and the pass never ends early"}
